@@ -7,7 +7,7 @@
 (* rest of the trace is still examined.  The trace is accepted iff no      *)
 (* MISMATCH line was printed and every line was consumed (postcondition).  *)
 (***************************************************************************)
-EXTENDS UintConv, Json, IOUtils, TLC
+EXTENDS UintBytes, Json, IOUtils, TLC
 
 Rec == ndJsonDeserialize(IOEnv.TRACE)
 
@@ -18,6 +18,7 @@ Check(e) ==
   ELSE CASE e.g = "arith" -> CheckArith(e)
          [] e.g = "bits"  -> CheckBits(e)
          [] e.g = "conv"  -> CheckConv(e)
+         [] e.g = "bytes" -> CheckBytes(e)
          [] OTHER -> [unknown_group |-> FALSE]
 
 Fails(c) == {f \in DOMAIN c : ~c[f]}
